@@ -205,6 +205,15 @@ class Ctx:
                            % (type(e).__name__, e, os.path.basename(tb.filename), tb.lineno))
 
 
+def full_explanation(mod):
+    inc = getattr(mod, "INCLUDES", None)
+    if not inc:
+        return mod.EXPLANATION
+    return mod.EXPLANATION + " Also evaluated here, as necessary conditions shared with neighbouring properties (DESIGN.md 13.2): " + "; ".join(
+        "%s rule instances%s reported as %s.*" % (m_.upper(), "" if sel is None else " (%s)" % ", ".join(list(sel.get("keys", ())) + list(sel.get("rules", ()))), pre)
+        for m_, pre, sel, _ in inc) + "."
+
+
 def run_property(mod, ctx):
     """a property's own rules, then the rule instances of neighbouring properties it depends on (module attribute
     INCLUDES = [(module name, prefix, selector, floor)]; selector None = all instances, else a dict with `keys` /
